@@ -142,7 +142,7 @@ def do_replay(path, extra_defines=()):
 def main():
     ap = argparse.ArgumentParser()
     ap.add_argument('prop', nargs='?'); ap.add_argument('--tier', default=os.environ.get('VERIF_TIER', 'quick'))
-    ap.add_argument('--job'); ap.add_argument('--replay'); ap.add_argument('--keep', action='store_true'); ap.add_argument('--define', action='append', default=[]); ap.add_argument('--no-evidence', action='store_true')
+    ap.add_argument('--job'); ap.add_argument('--replay'); ap.add_argument('--keep', action='store_true'); ap.add_argument('--all-jobs', action='store_true'); ap.add_argument('--define', action='append', default=[]); ap.add_argument('--no-evidence', action='store_true')
     a = ap.parse_args()
     if a.replay: sys.exit(do_replay(a.replay, a.define))
     prop = a.prop; tier = a.tier if a.tier in ('quick', 'thorough') else 'quick'
@@ -157,7 +157,7 @@ def main():
         builder = irbuild.Builder(scratch)
         for job in spec['jobs']:
             if a.job and job['name'] != a.job: continue
-            if tier == 'quick' and job.get('thorough_only'): continue
+            if tier == 'quick' and job.get('thorough_only') and not a.all_jobs and not a.job: continue
             try:
                 r = run_job(prop, job, tier, builder, seed, log)
             except irbuild.BuildError as e:
